@@ -120,4 +120,41 @@ theorem row_prefix_free (fs : List (FTy × SortOptions)) (r1 r2 : List FVal)
     (h : encodeRow fs r1 <+: encodeRow fs r2) : encodeRow fs r1 = encodeRow fs r2 :=
   eq_of_prefix_of_cmpStrict (encodeRow_cmp fs r1 r2 h1 h2) h
 
+/-- **decode ∘ encode, variable-length field** (`decode_blocks` / `decode_binary` after
+`encode_one`): decoding an encoding followed by *anything* returns the value and exactly the
+bytes that followed — for every length, both directions of the block loop, both sort
+directions.  (`encodedLen`:) the encoding has exactly `padded_length` bytes, which is what
+`row_lengths` reserves. -/
+theorem var_roundtrip (o : SortOptions) (v : Option (List UInt8)) (rest : List UInt8) :
+    decodeVar o (encodeVar o v ++ rest) = some (v, rest) ∧
+    (encodeVar o v).length = paddedLength (v.map List.length) :=
+  ⟨decodeVar_encodeVar o v rest, encodeVar_length o v⟩
+
+example : decodeVar ⟨true, true⟩ (encodeVar ⟨true, true⟩ (some (List.replicate 40 0xFF)) ++ [1, 2, 3])
+    = some (some (List.replicate 40 0xFF), [1, 2, 3]) := (var_roundtrip _ _ _).1
+
+/-- **decode ∘ encode, every flat field** (`decode_primitive`, `decode_bool`,
+`decode_fixed_size_binary`, `decode_binary` after the matching encoder), with anything
+following the field; and the encoded length is the one `row_lengths` computes. -/
+theorem field_roundtrip (o : SortOptions) (t : FTy) (v : FVal) (rest : List UInt8) (hv : t.admits v = true) :
+    decodeField o t (encodeField o t v ++ rest) = some (v, rest) ∧
+    (encodeField o t v).length = fieldLength t v :=
+  ⟨decodeField_encodeField o t v rest hv, encodeField_length o t v hv⟩
+
+/-- **Rows decode to the original values** (`convert_rows ∘ convert_columns` on a row of flat
+fields): the field decoders, run left to right on the concatenation, return the tuple and
+consume the row exactly. -/
+theorem row_roundtrip (fs : List (FTy × SortOptions)) (r : List FVal) (h : rowAdmits fs r = true) :
+    decodeRow fs (encodeRow fs r) = some r :=
+  decodeRow_encodeRow fs r h
+
+/-- a consequence of `row_roundtrip`: the row encoding is injective on values (equal bytes
+come from equal value tuples, not just from tuples that compare equal) -/
+theorem row_injective_values (fs : List (FTy × SortOptions)) (r1 r2 : List FVal)
+    (h1 : rowAdmits fs r1 = true) (h2 : rowAdmits fs r2 = true) (h : encodeRow fs r1 = encodeRow fs r2) : r1 = r2 := by
+  have e1 := decodeRow_encodeRow fs r1 h1
+  have e2 := decodeRow_encodeRow fs r2 h2
+  rw [h, e2] at e1
+  exact (Option.some.inj e1).symm
+
 end ArrowModel.C11
